@@ -1,7 +1,7 @@
 (* Property C15 - only statements, each closed by [exact]. *)
 From Coq Require Import NArith List Bool.
 Import ListNotations.
-Require Import UV.C15.Model UV.C15.Doc UV.C15.GraphF UV.C15.BackTrace UV.C15.Proofs.
+Require Import UV.C15.Model UV.C15.Doc UV.C15.GraphF UV.C15.BackTrace UV.C15.GraphText UV.C15.Proofs.
 Local Open Scope N_scope.
 
 (* Function names and string arguments: whatever bytes a name consists of, the text that
@@ -309,3 +309,24 @@ Theorem C15_json_ptr_legacy_refuted :
   /\ json_string_ok (quoted (args_text true [APtr (Some [102; 34; 103]) 4198912])) = true.
 Proof. exact json_ptr_legacy_refuted. Qed.
 Print Assumptions C15_json_ptr_legacy_refuted.
+
+(* `dump --flame-graph` on recorded data (info has a record date) and no --sample-time: the sample time is the
+   smallest of 1us, 10us, ... 1s of which a million cover the elapsed time (1s at most) ... *)
+Theorem C15_flame_auto_sample : forall total,
+  let s := auto_sample total in
+  In s [1000; 10000; 100000; 1000000; 10000000; 100000000; 1000000000]
+  /\ (total <= s * 1000000 \/ s = 1000000000)
+  /\ (s = 1000 \/ (s / 10) * 1000000 < total).
+Proof. exact auto_sample_spec. Qed.
+Print Assumptions C15_flame_auto_sample.
+
+(* ... and the lines are the sampled counts at that sample time. *)
+Theorem C15_flame_auto_lines : forall total rootname tids s,
+  wf_stream s = true -> NoDup tids -> (forall r, In r s -> In (fst r) tids) ->
+  (forall p, time_path p (ref_calls tids s) < W64) ->
+  forall p c, In (p, c) (flame_rows (auto_sample total) (graph_build (auto_sample total) rootname tids s)) <->
+    (count_path p (ref_entries [] s) <> 0
+     /\ c = (time_path p (ref_calls tids s) - sampled_child_time (auto_sample total) p (ref_calls tids s)) / auto_sample total
+     /\ c <> 0).
+Proof. exact flame_auto_lines. Qed.
+Print Assumptions C15_flame_auto_lines.
